@@ -299,14 +299,16 @@ func (h *HashOutput) UnmarshalXML(d *xml.Decoder, start xml.StartElement) error 
 	if !ok {
 		return xml.UnmarshalError("crypto: unexpected XML, expected chardata")
 	}
-	l := base64.StdEncoding.DecodedLen(len(charData))
-	if len(h.Out) < l {
-		h.Out = append(h.Out, make([]byte, l-len(h.Out))...)
+	// Always decode into a new slice: a copy of the value that was made before
+	// this call shares the old one and must not change.
+	var out []byte
+	if l := base64.StdEncoding.DecodedLen(len(charData)); l > 0 {
+		out = make([]byte, l)
 	}
-	n, err := base64.StdEncoding.Decode(h.Out, charData)
+	n, err := base64.StdEncoding.Decode(out, charData)
 	if err != nil {
 		return err
 	}
-	h.Out = h.Out[:n]
+	h.Out = out[:n]
 	return d.Skip()
 }
